@@ -55,7 +55,7 @@ def build_so(openmp=True, extra=(), names=None, key=None):
     if k in _SO: return _SO[k]
     d = scratch("verif_so_")
     so = os.path.join(d, "libimd11.so")
-    srcs = [os.path.join(REPO, "src", n + ".c") for n in (names or C_FILES)]
+    srcs = [os.path.join(REPO, "src", n + ".c") for n in (names or C_FILES)] + [os.path.join(VERIF, "stubs", "verif_exports.c")]
     cmd = ["gcc", "-shared", "-fPIC", "-O2", "-g", "-fno-strict-overflow", "-DNDEBUG", "-I" + os.path.join(REPO, "src")] + list(extra) + srcs + ["-o", so, "-lm"]
     if openmp: cmd.insert(1, "-fopenmp")
     r = subprocess.run(cmd, capture_output=True, text=True)
@@ -256,3 +256,14 @@ def parse_args(pid):
     ap.add_argument("--replay", default=None)
     ap.add_argument("--only", default=None, help="comma list of sub-harness names (debugging)")
     return ap.parse_args(sys.argv[1:])
+
+
+def run_main(main):
+    """exit-code discipline: only a reproduced violation may exit 1; any harness error is 3 (inconclusive)"""
+    try:
+        main()
+    except SystemExit: raise
+    except BaseException as e:
+        traceback.print_exc()
+        print("HARNESS-ERROR (inconclusive, not a verdict): %s: %s" % (type(e).__name__, e))
+        sys.stdout.flush(); sys.exit(EXIT_INCONCLUSIVE)
